@@ -5,8 +5,9 @@ connection spowtd opens is a FaultConnection handing out FaultCursors.  Every
 statement is a numbered *fault point*:
 
   before each execute / executescript, before each executemany, after each
-  row an executemany has consumed, before an explicit commit(), before the
-  implicit commit of `with connection:` (Connection.__exit__)
+  of the first 32 rows an executemany has consumed, after every 97th row
+  beyond that and after its last row, before an explicit commit(), before
+  the implicit commit of `with connection:` (Connection.__exit__)
 
 At point k the injector either raises sqlite3.OperationalError (mode 'raise')
 or ends the process with os._exit (mode 'kill', run in a forked child so the
@@ -56,7 +57,10 @@ class FaultCursor(sqlite3.Cursor):
             for row in seq:
                 yield row
                 k += 1
-                point('executemany row %d: %s' % (k, _short(sql)))
+                if k <= 32 or k % 97 == 0:
+                    point('executemany row %d: %s' % (k, _short(sql)))
+            if k > 32 and k % 97:
+                point('executemany row %d (last): %s' % (k, _short(sql)))
         return super().executemany(sql, rows())
 
 
